@@ -84,6 +84,11 @@ def getAttr (defaults attrs : List (String × PyVal)) (n : String) : PyVal :=
   | some v => v
   | none => (lookup n defaults).getD .none
 
+/-- `processed_mapper[mapped_key] = getter`: two fields mapped to one key share one entry (the
+    later field's).  Without a mapper the keys are the distinct field names. -/
+def keyDedupe (m : TMapper) (r : List (PyVal × PyVal)) : List (PyVal × PyVal) :=
+  if m.isNone then r else dictOfPairs r
+
 /-- a ClassReference to a class without an installed `serialize` (not FastSerializable) -/
 def nonFastRef (NF : List String) : FieldDecl → Bool
   | .struct c _ _ => !c.inline && NF.contains c.name
@@ -133,7 +138,8 @@ def fser (Mp : MapEnv) (NF : List String) : FieldDecl → PyVal → R PyVal
     else if NF.contains c.name then .error .typeErr        -- `getattr(cls, "serialize", None)(value)`
     else (match v with
       | .inst _ attrs =>
-        bindE (fFields Mp NF false (Mp c.name) defaults attrs fields) fun r => .ok (.dict r)
+        bindE (fFields Mp NF false (Mp c.name) defaults attrs fields) fun r =>
+          .ok (.dict (keyDedupe (Mp c.name) r))
       | _ => .error (.other "AttributeError"))
   | .anyOf fs, v => if v.isNone then .ok .none else fserLast Mp NF fs v
   | .allOf fs, v => fserHead Mp NF fs v
@@ -245,7 +251,8 @@ def fastSerialize (Mp : MapEnv) (NF : List String) (sn compact : Bool) (cls : Fi
     (x : PyVal) : R PyVal :=
   match cls with
   | .struct c fields defaults =>
-    bindE (fFields Mp NF sn (Mp c.name) defaults (attrsOf x) fields) fun r =>
+    bindE (bindE (fFields Mp NF sn (Mp c.name) defaults (attrsOf x) fields) fun r =>
+            .ok (keyDedupe (Mp c.name) r)) fun r =>
       if compact && fields.length == 1 && r.length == 1 then
         (match r with | kv :: _ => .ok kv.2 | [] => .ok (.dict r))
       else .ok (.dict r)
